@@ -742,5 +742,36 @@ func runCloseOrder(p *core.Prog) *core.Result {
 	if n == 0 {
 		res.Bad("(*vm).restoreStacks:iterators closed from the top down", p.Pos(fn.Pos()), "no index loop over the tail of vm.iterStack found in restoreStacks")
 	}
+	// every open iterator is closed even when an earlier return() threw: the closing loop is left
+	// through its loop condition only (seed C08/g stopped at the first failing return())
+	for _, h := range fn.Blocks {
+		isHeader := false
+		for _, pr := range h.Preds {
+			if h.Dominates(pr) {
+				isHeader = true
+			}
+		}
+		if !isHeader {
+			continue
+		}
+		inLoop := func(x *ssa.BasicBlock) bool { return h.Dominates(x) && (x == h || core.Reaches(x, h)) }
+		early := ""
+		for _, x := range fn.Blocks {
+			if !inLoop(x) || x == h {
+				continue
+			}
+			for _, sx := range x.Succs {
+				if !inLoop(sx) && p.FirstNoReturn(sx) < 0 {
+					early = p.Pos(x.Instrs[len(x.Instrs)-1].Pos())
+				}
+			}
+		}
+		key := "(*vm).restoreStacks:closing loop runs to the end"
+		if early == "" {
+			res.OK(key, p.Pos(h.Instrs[0].Pos()), "left through its loop condition only")
+		} else {
+			res.Bad(key, early, "the loop that closes the open iterators can be left before the last record: after an iterator whose return() throws, the remaining (outer) iterators are never closed")
+		}
+	}
 	return res
 }
